@@ -26,10 +26,22 @@ REQUIRED_THEOREMS = ['CfVerif.C09.matcher_conditions', 'CfVerif.C09.matcher_grou
                      'CfVerif.C09.linking_outcome', 'CfVerif.C09.linking_iff', 'CfVerif.C09.unlinked_rejected', 'CfVerif.C09.estimate_outcome', 'CfVerif.C09.estimate_exact_on_consistent_data',
                      'CfVerif.C09.layout_length', 'CfVerif.C09.bsmap_sorted', 'CfVerif.C09.sparsity_columns', 'CfVerif.C09.sparsity_rows',
                      'CfVerif.C09.residual_row_reads', 'CfVerif.C09.sparsity_covers_dependencies',
+                     'CfVerif.C09.negated_rotvec_is_transpose', 'CfVerif.C09.zero_residual_at_truth',
                      'CfVerif.C09.ippe_rotations_proper', 'CfVerif.C09.ippe_axes', 'CfVerif.C09.ippe_vec_roundtrip', 'CfVerif.C09.ippe_mat_roundtrip']
-TRUSTED = ['harness/corr/c09.py extractor + correspondence']
-ASSUMPTIONS = []
-RULE = ''
+TRUSTED = ['harness/corr/c09.py extractor + correspondence (symbolic subclassing of the estimator, least_squares recorder)',
+           'numpy/scipy numerics: IPPE (_ippe.mat_run), mirror voting/selection, quaternion averaging, Pose<->scipy Rotation conversions, '
+           'scipy.optimize.least_squares convergence: NOT modelled, only tested end-to-end in search()',
+           'numpy fancy indexing / reshape / row-wise broadcasting as modelled; sorted() = merge sort on ids; dict = insertion-ordered map',
+           'CPython set iteration order over-approximated by an arbitrary-member oracle (pick)',
+           'float time stamps: ts + max_time_diff modelled in exact arithmetic',
+           'T3 is over an arbitrary field with abstract norm/cos/sin/atan2/tan satisfying TrigLaws; binary64 rounding is not modelled']
+ASSUMPTIONS = ['PARTIAL: convergence/accuracy of the numerics (the 1 mm / 1 mrad claim) is TESTED on generated rooms, not proved',
+               'known finding D92 (mirror vote pollution) makes ~2-5% of realistic rooms miss the tolerance; D91 (eig->eigh) must be fixed',
+               'for an empty sample list only the API-level ValueError of solve() is compared']
+RULE = ('cases = measurement streams (all streams of <=4/5 measurements over gaps {0,d,d+1} x 2 ids x min_bs, random bursty streams), '
+        'co-visibility hypergraphs (chains, stars, islands, dense, degenerate; real rooms behind the real IPPE stage), solver set-ups '
+        '(ids, samples, sensors, CF-pose counts incl. error cases) x 4 stages, IPPE integer vectors/matrices, residual rows on binary64; '
+        'non-trivial = distinct (op, input); search(): end-to-end rooms are validation (testing), not proof')
 
 MATCHER = 'cflib/localization/lighthouse_sample_matcher.py'
 ESTIMATOR = 'cflib/localization/lighthouse_initial_estimator.py'
@@ -136,7 +148,7 @@ def _lints(l):
 
 
 def extract(ctx):
-    g = X.GenFile(PID, [MATCHER, ESTIMATOR, SOLVER, IPPE])
+    g = X.GenFile(PID, [MATCHER, ESTIMATOR, SOLVER, IPPE, 'cflib/localization/lighthouse_bs_vector.py', 'cflib/localization/lighthouse_types.py'])
     # ---- sample matcher ---------------------------------------------------------------------------
     mt = X.parse(MATCHER)
     m = X.find(mt, 'LighthouseSampleMatcher.match')
@@ -277,6 +289,21 @@ def extract(ctx):
     aug = [n for n in _stmts(cond, ast.AugAssign) if ast.unparse(n.target) == 'i' and isinstance(n.op, ast.Add)]
     X.expect(len(aug) == 1, '_condense_results: expected one `i += ...`')
     g.raw('def errStride (nSensors : Nat) : Nat := ' + _tr(aug[0].value, cenv))
+
+    # ---- row-wise numerics of the residual (T3): the statements the generic model transcribes -------------
+    rt = X.find(st, 'LighthouseGeometrySolver._rotate_translate')
+    g.strings('rotateTranslateAssigns', _assigns(rt))
+    g.strings('rotateTranslateReturns', _returns(rt))
+    cap = X.find(st, 'LighthouseGeometrySolver._calc_angle_pairs')
+    g.strings('calcAnglePairsAssigns', _assigns(cap))
+    g.strings('calcAnglePairsReturns', _returns(cap))
+    bvt = X.parse('cflib/localization/lighthouse_bs_vector.py')
+    g.strings('fromCartAssigns', _assigns(X.find(bvt, 'LighthouseBsVector.from_cart')))
+    g.strings('fromCartReturns', _returns(X.find(bvt, 'LighthouseBsVector.from_cart')))
+    g.strings('angleListAssigns', _assigns(X.find(bvt, 'LighthouseBsVectors.angle_list')))
+    ltt = X.parse('cflib/localization/lighthouse_types.py')
+    g.strings('poseRotateTranslateReturns', _returns(X.find(ltt, 'Pose.rotate_translate')))
+    g.strings('poseInvRotateTranslateReturns', _returns(X.find(ltt, 'Pose.inv_rotate_translate')))
 
     # ---- IPPE <-> CF axis permutation ---------------------------------------------------------------------
     it = X.parse(IPPE)
@@ -610,6 +637,46 @@ def real_bsmap(ids):
     return 'ok %s %s' % (','.join('%d:%d' % kv for kv in a.items()) or '-', ','.join('%d:%d' % kv for kv in b.items()) or '-')
 
 
+def real_rottrans(p, r, t):
+    np, sm, ie, gs, lt, ippe_cf, bv = _mods()
+    with np.errstate(all='ignore'):
+        o = gs.LighthouseGeometrySolver._rotate_translate(np.array([p], dtype=float), np.array([r], dtype=float), np.array([t], dtype=float))[0]
+    return [float(x) for x in o]
+
+
+def real_residpair(bs, cf, sens, target, cf_is_first):
+    """the REAL _calc_residual for one base station, one sensor and one sample (sample 0 = pinned zero pose, or sample 1)"""
+    np, sm, ie, gs, lt, ippe_cf, bv = _mods()
+    S = gs.LighthouseGeometrySolver
+    defs = gs.LighthouseGeometrySolution()
+    defs.n_bss, defs.n_cfs, defs.n_cfs_in_params, defs.n_sensors = 1, 2, 1, 1
+    params = np.array(list(bs) + list(cf), dtype=float)
+    ibs, icf, isens = np.array([0]), np.array([0 if cf_is_first else 1]), np.array([0])
+    sp = np.array([sens], dtype=float)
+    with np.errstate(all='ignore'):
+        bss, cfs = S._params_to_struct(params, defs)
+        cfs_full = np.concatenate((np.zeros((1, 6)), cfs))
+        ang = S._poses_to_angle_pairs(bss, cfs_full, sp, ibs, icf, isens, defs)[0]
+        res = S._calc_residual(params, defs, ibs, icf, isens, np.array(target, dtype=float), sp)
+    return [float(ang[0]), float(ang[1]), float(res[0]), float(res[1])]
+
+
+def _fbits(l):
+    from harness.lib.common import f64bits
+    return ','.join(str(f64bits(float(x))) for x in l)
+
+
+def _close(model_reply, real_vals, tol=1e-9):
+    from harness.lib.common import bits_f64
+    if not model_reply.startswith('ok '):
+        return False
+    try:
+        mv = [bits_f64(int(x)) for x in model_reply[3:].split(',')]
+    except ValueError:
+        return False
+    return len(mv) == len(real_vals) and all(abs(a - b) <= tol * max(1.0, abs(a), abs(b)) for a, b in zip(mv, real_vals))
+
+
 def real_ippe(op, v):
     np, sm, ie, gs, lt, ippe_cf, bv = _mods()
     I = ippe_cf.IppeCf
@@ -846,8 +913,35 @@ def correspond(ctx):
             add('ippe', '%s %s' % (op, ','.join(map(str, v))), real_ippe(op, v), {'op': op, 'v': v}, (op, tuple(v)))
         m = [rng.randint(-9, 9) for _ in range(9)]
         add('ippe', 'mat2cf %s' % ','.join(map(str, m)), real_ippe('mat2cf', m), {'op': 'mat2cf', 'm': m}, ('mat2cf', tuple(m)))
+    # ---- row-wise residual numerics (binary64 instance of the generic model vs numpy; tolerance 1e-9, no bit equality)
+    for k in range(1500 if thorough else 300):
+        rv = lambda m: [rng.uniform(-m, m) for _ in range(3)]
+        zero = [0.0, 0.0, 0.0]
+        p, r, t = rv(3), (zero if k % 7 == 0 else rv(rng.choice([0.001, 1.0, 3.1]))), rv(3)
+        add('numeric', 'rottrans ' + _fbits(p + r + t), real_rottrans(p, r, t), {'op': 'rottrans', 'p': p, 'r': r, 't': t}, ('rottrans', k))
+        first = k % 3 == 0
+        cfr, cft = (zero, zero) if first else ((zero if k % 5 == 0 else rv(rng.choice([0.2, 3.0]))), rv(1.0))
+        bst = [rng.uniform(-3, 3), rng.uniform(-3, 3), rng.uniform(1.5, 3)]
+        # base station looking roughly at the origin so that the sensor is in front of it (x > 0 in its frame)
+        import numpy as _np
+        from scipy.spatial.transform import Rotation as _R
+        Rm, _ = look_at(_np, _np.array(bst), _np.array([0.0, 0.0, 0.3]), rng.uniform(-0.3, 0.3))
+        bsr = [float(x) for x in _R.from_matrix(Rm).as_rotvec()]
+        sens = [rng.uniform(-0.02, 0.02), rng.uniform(-0.02, 0.02), 0.0]
+        true = real_residpair(bsr + bst, cfr + cft, sens, [0.0, 0.0], first)
+        target = [true[0] + rng.choice([0.0, rng.uniform(-0.3, 0.3)]), true[1] + rng.choice([0.0, rng.uniform(-0.3, 0.3)])]
+        vals = real_residpair(bsr + bst, cfr + cft, sens, target, first)
+        add('numeric', 'residpair ' + _fbits(bsr + bst + cfr + cft + sens + target), vals,
+            {'op': 'residpair', 'bs': bsr + bst, 'cf': cfr + cft, 'sens': sens, 'target': target, 'first_sample': first}, ('residpair', k))
+        ctx.count('resid:zero-target' if target == true[:2] else 'resid:offset-target')
     replies = ctx.lean(DRIVER, lines)
     for line, (kind, real, desc, key), model in zip(lines, reals, replies):
+        if kind == 'numeric':
+            ctx.count('op:' + desc['op'])
+            ctx.case(desc, key)
+            if not _close(model, real):
+                ctx.disagree(desc['op'], line[:400], model[:400], str(real)[:400])
+            continue
         ctx.count('op:' + kind)
         ctx.case(desc, key)
         if real != model:
